@@ -11,6 +11,8 @@ READY = True
 USES_GEN = True          # lean/Dashu/Gen/MacroGen.lean (vlib/extract_macro.py): decision logic of the code generators of the macros
 GEN_PROPS = ["Dashu.Props.C20Gen", "Dashu.Props.C20GenLoop"]
 GEN_AUDIT = ["Dashu.Audit.C20Gen", "Dashu.Audit.C20GenLoop"]
+GEN_PROPS += ["Dashu.Props.C20Link"]     # round 7: link to C07's mirrored word-level to_le_bytes / from_le_bytes (by import)
+GEN_AUDIT += ["Dashu.Audit.C20Link"]
 
 REFINED = ["quote_bytes / from_le_bytes (heap path)", "le_bytes_to_u{16,32,64}_array + padding + LEN slicing (static path)",
            "u32 const path guard", "parse_integer_with_error token loop on the documented grammar",
@@ -38,7 +40,18 @@ REFINED = ["quote_bytes / from_le_bytes (heap path)", "le_bytes_to_u{16,32,64}_a
            "model's intFinishNew / ratFinishNew proved equal for every state, hence intNew / ratNew = regenerated loop ; regenerated finish "
            "for every token list (Props/C20GenLoop int_parse_regenerated, ratio_parse_regenerated)",
            "round 6: quote_sign's four arms REGENERATED (which path each (embedded, sign) arm emits); each arm writes the sign it was given in "
-           "the namespace of its flag (Props/C20Gen quote_sign_regenerated)"]
+           "the namespace of its flag (Props/C20Gen quote_sign_regenerated)",
+           "round 7, C20<->C07 link (Props/C20Link, by import of C07's toLeBytes_eq / fromLeBytes_eq): the byte string the model hands to "
+           "the generators IS what C07's word-level mirror of UBig::to_le_bytes (inline double word + words_to_le_bytes) writes on a host "
+           "of any word size Wh (8 | Wh), and the value the model assigns to UBig::from_le_bytes(&BYTES) IS what C07's word-level mirror of "
+           "Repr::from_le_bytes (word_from_le_bytes_partial + from_le_bytes_large) computes on a target of any word size Wt, for every "
+           "byte string; hence heap path end to end at word level for every n and every (Wh, Wt) (heap_path_value_word_level), and the "
+           "static slices for Wt in {16,32,64} fed by the mirrored encoder denote n (static_path_value_word_level)",
+           "round 7, C20<->C17 link (Props/C20Link, by import of C17's Rep.fromStaticWords = repr.rs:290 with both asserts): on any word "
+           "list whose last word is non-zero the mirrored from_static_words takes no assert arm, emits no event and shows exactly those "
+           "words (from_static_words_accepts_normalised); on the slice &DATA[..LEN] the macro emits for n (each selector) it is accepted "
+           "and the shown words denote n (static_constructor_on_macro_slice); staticSelect reads exactly these slices "
+           "(staticSelect_reads_macro_slice)"]
 FRONTIER = ["rustc tokenisation of the literal (generator-side lexer, validated by compiling the sample crate): kept — rustc's lexer is not "
             "part of /repo and has no executable model here; level (ii) compiles the sampled invocations with the real compiler",
             "the expansion is read by an interpreter in the harness (constructor paths + data); validated by level (ii): the real proc-macros "
@@ -46,8 +59,10 @@ FRONTIER = ["rustc tokenisation of the literal (generator-side lexer, validated 
             "macros emit and fails closed (`bad-expansion`) on anything else",
             "clause `whether the macro expands to a const expression ... static word array` for floats: the precision on the static path / of a "
             "zero literal differs from FromStr (two recorded findings, theorem float_precision_lost + float_path_regenerated say exactly where)",
-            "the constructors called by the expansion (UBig::from_le_bytes, from_static_words, from_parts_const, Repr::new, from_parts) are "
-            "modelled by their value (C07/C19/C05 own them); Tie B runs the real ones"]
+            "the float / rational constructors called by the expansion (from_parts_const, Repr::new, FBig::from_repr / from_repr_const, "
+            "RBig / Relaxed::from_parts_const) and IBig::from_parts / from_static_words(sign, ..) are modelled by their value (C19/C05 own "
+            "them); Tie B runs the real ones. Round 7: UBig::to_le_bytes / UBig::from_le_bytes (C07's word-level mirrors) and "
+            "Repr::from_static_words (C17's mirror with both asserts) are no longer in this entry — linked by theorem, Props/C20Link"]
 RULE = ("source texts of macro arguments built from the grammar (sign x radix prefix / `base N` for N in 2..36 x underscores x "
         "identifier-shaped digit strings x exponent / hex-float / fraction / `~` forms) with magnitudes on both sides of the "
         "32-bit const path, the DoubleWord boundary and multi-word values of every byte-length residue mod 8, each expanded as "
